@@ -714,7 +714,9 @@ impl<Backing : AsRef<[u32]> + AsMut<[u32]>> DrawTarget<Backing> {
 
         if self.transform == Transform::identity() && integer_rect && self.clip_stack.is_empty() {
             let bounds = intrect(0, 0, self.width, self.height);
-            let mut irect = intrect(ix, iy, ix + iwidth, iy + iheight);
+            // a negative width or height still describes the rectangle between the two corners
+            let mut irect = intrect(ix.min(ix + iwidth), iy.min(iy + iheight),
+                                    ix.max(ix + iwidth), iy.max(iy + iheight));
             irect = match irect.intersection(&bounds) {
                 Some(irect) => irect,
                 _ => return,
